@@ -77,6 +77,10 @@ namespace ip {
 		m_queue_size_limit = -1;
 		cancel(ec);
 		socket::close(ec);
+
+		// connections that arrived but were never accepted are reset, they must
+		// not be handed out if this acceptor is opened again
+		check_accept_queue();
 	}
 
 	void tcp::acceptor::close()
